@@ -3,8 +3,8 @@
 
   §1  the observer `obs F`: computed alongside the evaluation (it re-runs the functions of the block for the
       intermediate states and follows their control flow), it returns the CUT of the run — the state in which
-      the first poll that reported "done" was performed, together with the stack of `try` forms that were live
-      at that moment (innermost first; `true` = the form has a `finally` clause);
+      the first poll that reported "done" was performed, together with the stack of frames that were live at
+      that moment (innermost first): `try` forms (with / without a `finally` clause) and macro expansions;
   §2  the invariant `Inv` and its composition lemmas;
   §3  the induction over the thirteen functions;
   §4  the theorems used by Props/C07.lean.
@@ -17,8 +17,21 @@ open LispModel LispModel.Core LispModel.Proofs.EvalCancel
 
 /-! ## §1 the observer -/
 
-/-- the cut of a run: state at the first cancelled poll, `try` forms live at that moment -/
-abbrev Cut := Option (State × List Bool)
+/-- what can be live on the evaluation stack and still poll after the deadline: a `try` form (`fin` = it has
+    a `finally` clause, whose deferred run DISCARDS the timeout error) or a macro expansion (the expanded form
+    is dispatched in the same loop iteration, without a new poll) -/
+inductive Fr where
+  | tr (fin : Bool)
+  | mac
+deriving DecidableEq, Repr, Inhabited
+
+/-- only a `try` form with a `finally` clause can turn the timeout error back into a value -/
+def Fr.swallows : Fr → Bool
+  | .tr fin => fin
+  | .mac => false
+
+/-- the cut of a run: state at the first cancelled poll, frames live at that moment (innermost first) -/
+abbrev Cut := Option (State × List Fr)
 
 /-- sequencing: the cut of `run1; run2` where `run2` happens only when `run1` returned a value -/
 def andThen {α} (c : Cut) (r : Res α × State) (k : α → State → Cut) : Cut :=
@@ -31,19 +44,19 @@ def andThen {α} (c : Cut) (r : Res α × State) (k : α → State → Cut) : Cu
 
 /-- one observer per function of the block (at some fuel) -/
 structure Obs where
-  eval : List Bool → State → Nat → Val → Nat → Cut
-  evalLoop : List Bool → State → Nat → Val → Nat → Cut
-  evalAst : List Bool → State → Nat → Val → Nat → Cut
-  evalList : List Bool → State → Nat → List Val → Nat → Cut
-  evalMap : List Bool → State → Nat → List (String × Val) → Nat → Cut
-  doForms : List Bool → State → Nat → List Val → Nat → Bool → Nat → Cut
-  letBinds : List Bool → State → Nat → List Val → Val → Nat → Cut
-  macroexpand : List Bool → State → Nat → Val → Nat → Cut
-  apply : List Bool → State → Val → List Val → Nat → Cut
-  mapLoop : List Bool → State → Val → List Val → Nat → Cut
-  updateIn : List Bool → State → Val → List Val → Val → Nat → Cut
-  update1 : List Bool → State → Val → Val → Val → Nat → Cut
-  callBuiltin : List Bool → State → String → List Val → Nat → Cut
+  eval : List Fr → State → Nat → Val → Nat → Cut
+  evalLoop : List Fr → State → Nat → Val → Nat → Cut
+  evalAst : List Fr → State → Nat → Val → Nat → Cut
+  evalList : List Fr → State → Nat → List Val → Nat → Cut
+  evalMap : List Fr → State → Nat → List (String × Val) → Nat → Cut
+  doForms : List Fr → State → Nat → List Val → Nat → Bool → Nat → Cut
+  letBinds : List Fr → State → Nat → List Val → Val → Nat → Cut
+  macroexpand : List Fr → State → Nat → Val → Nat → Cut
+  apply : List Fr → State → Val → List Val → Nat → Cut
+  mapLoop : List Fr → State → Val → List Val → Nat → Cut
+  updateIn : List Fr → State → Val → List Val → Val → Nat → Cut
+  update1 : List Fr → State → Val → Val → Val → Nat → Cut
+  callBuiltin : List Fr → State → String → List Val → Nat → Cut
 
 def Obs.zero : Obs :=
   ⟨fun _ _ _ _ _ => none, fun _ _ _ _ _ => none, fun _ _ _ _ _ => none, fun _ _ _ _ _ => none,
@@ -102,46 +115,46 @@ def uiSame (v b : Val) : Bool :=
 section arms
 variable (o : Obs) (F : Nat)
 
-def oEvalAst (k : List Bool) (st : State) (env : Nat) (ast : Val) (d : Nat) : Cut :=
+def oEvalAst (k : List Fr) (st : State) (env : Nat) (ast : Val) (d : Nat) : Cut :=
   match ast with
   | .list xs _ => o.evalList k st env xs d
   | .vec xs _ => o.evalList k st env xs d
   | .map kvs => o.evalMap k st env kvs d
   | _ => none
 
-def oEvalList (k : List Bool) (st : State) (env : Nat) (xs : List Val) (d : Nat) : Cut :=
+def oEvalList (k : List Fr) (st : State) (env : Nat) (xs : List Val) (d : Nat) : Cut :=
   match xs with
   | [] => none
   | x :: xs => andThen (o.eval k st env x (d + 1)) (eval F st env x (d + 1)) fun _ st => o.evalList k st env xs d
 
-def oEvalMap (k : List Bool) (st : State) (env : Nat) (xs : List (String × Val)) (d : Nat) : Cut :=
+def oEvalMap (k : List Fr) (st : State) (env : Nat) (xs : List (String × Val)) (d : Nat) : Cut :=
   match xs with
   | [] => none
   | (_, x) :: r => andThen (o.eval k st env x (d + 1)) (eval F st env x (d + 1)) fun _ st => o.evalMap k st env r d
 
-def oDoForms (k : List Bool) (st : State) (env : Nat) (lst : List Val) (fr : Nat) (kl : Bool) (d : Nat) : Cut :=
+def oDoForms (k : List Fr) (st : State) (env : Nat) (lst : List Val) (fr : Nat) (kl : Bool) (d : Nat) : Cut :=
   if lst.length ≤ fr then none
   else o.evalList k st env (if kl then (lst.drop fr).dropLast else lst.drop fr) d
 
-def oLetBinds (k : List Bool) (st : State) (letEnv : Nat) (bs : List Val) (a1 : Val) (d : Nat) : Cut :=
+def oLetBinds (k : List Fr) (st : State) (letEnv : Nat) (bs : List Val) (a1 : Val) (d : Nat) : Cut :=
   match bs with
   | .sym name _ :: x :: rest =>
     andThen (o.eval k st letEnv x (d + 1)) (eval F st letEnv x (d + 1)) fun v st =>
       o.letBinds k (st.set letEnv name v) letEnv rest a1 d
   | _ => none
 
-def oMacroexpand (k : List Bool) (st : State) (env : Nat) (ast : Val) (d : Nat) : Cut :=
+def oMacroexpand (k : List Fr) (st : State) (env : Nat) (ast : Val) (d : Nat) : Cut :=
   match macroCall st env ast with
   | none => none
   | some (params, body, fenv, args) =>
     match bindParams params args with
     | .error _ => none
     | .ok data =>
-      andThen (o.eval k (st.newScope fenv data).1 (st.newScope fenv data).2 body (d + 1))
+      andThen (o.eval (.mac :: k) (st.newScope fenv data).1 (st.newScope fenv data).2 body (d + 1))
         (eval F (st.newScope fenv data).1 (st.newScope fenv data).2 body (d + 1)) fun ast' st =>
           o.macroexpand k st env ast' d
 
-def oApply (k : List Bool) (st : State) (f : Val) (args : List Val) (d : Nat) : Cut :=
+def oApply (k : List Fr) (st : State) (f : Val) (args : List Val) (d : Nat) : Cut :=
   match f with
   | .fn params body fenv _ _ =>
     (match bindParams params args with
@@ -150,12 +163,12 @@ def oApply (k : List Bool) (st : State) (f : Val) (args : List Val) (d : Nat) : 
   | .builtin name => o.callBuiltin k st name args d
   | _ => none
 
-def oMapLoop (k : List Bool) (st : State) (f : Val) (xs : List Val) (d : Nat) : Cut :=
+def oMapLoop (k : List Fr) (st : State) (f : Val) (xs : List Val) (d : Nat) : Cut :=
   match xs with
   | [] => none
   | x :: xs => andThen (o.apply k st f [x] d) (apply F st f [x] d) fun _ st => o.mapLoop k st f xs d
 
-def oUpdateIn (k : List Bool) (st : State) (v : Val) (path : List Val) (f : Val) (d : Nat) : Cut :=
+def oUpdateIn (k : List Fr) (st : State) (v : Val) (path : List Val) (f : Val) (d : Nat) : Cut :=
   match path with
   | [] => none
   | [i] => o.update1 k st v i f d
@@ -164,7 +177,7 @@ def oUpdateIn (k : List Bool) (st : State) (v : Val) (path : List Val) (f : Val)
     | none => none
     | some b => if !uiSame v b then none else o.updateIn k st b (j :: rest) f d
 
-def oUpdate1 (k : List Bool) (st : State) (v : Val) (i : Val) (f : Val) (d : Nat) : Cut :=
+def oUpdate1 (k : List Fr) (st : State) (v : Val) (i : Val) (f : Val) (d : Nat) : Cut :=
   match v with
   | .map m =>
     (match i with
@@ -176,8 +189,10 @@ def oUpdate1 (k : List Bool) (st : State) (v : Val) (i : Val) (f : Val) (d : Nat
      | _ => none)
   | _ => none
 
-def oCallBuiltin (k : List Bool) (st : State) (name : String) (args : List Val) (d : Nat) : Cut :=
-  if name = "eval" then
+def oCallBuiltin (k : List Fr) (st : State) (name : String) (args : List Val) (d : Nat) : Cut :=
+  if name = "trace!" then none
+  else if name = "depth!" then none
+  else if name = "eval" then
     (match args with
      | [a] => o.eval k st 0 a (d + 1)
      | _ => none)
@@ -198,6 +213,9 @@ def oCallBuiltin (k : List Bool) (st : State) (name : String) (args : List Val) 
         | none => none
         | some xs => o.mapLoop k st f xs d)
      | _ => none)
+  else if name = "atom" then none
+  else if name = "deref" then none
+  else if name = "reset!" then none
   else if name = "swap!" then
     (match args with
      | .atom id :: f :: extra => o.apply k st f (st.atoms.getD id .nil :: extra) d
@@ -215,7 +233,7 @@ def oCallBuiltin (k : List Bool) (st : State) (name : String) (args : List Val) 
 
 /-! the arms of the loop (debugger off: `continue` is the next iteration) -/
 
-def oLetArm (k : List Bool) (st : State) (env : Nat) (lst : List Val) (a1 : Val) (d : Nat) : Cut :=
+def oLetArm (k : List Fr) (st : State) (env : Nat) (lst : List Val) (a1 : Val) (d : Nat) : Cut :=
   match seqOf? a1 with
   | none => none
   | some arr1 =>
@@ -228,7 +246,7 @@ def oLetArm (k : List Bool) (st : State) (env : Nat) (lst : List Val) (a1 : Val)
       o.evalLoop k st2 (st.newScope env []).2 next d
 
 /-- cut of the handler stage, given the result of the body -/
-def oHandler (k : List Bool) (parts : TryParts) (env d : Nat) (rb : R) : Cut :=
+def oHandler (k : List Fr) (parts : TryParts) (env d : Nat) (rb : R) : Cut :=
   match rb with
   | (.err e, s1) =>
     (match parts.catchDo, parts.catchBind with
@@ -240,7 +258,7 @@ def oHandler (k : List Bool) (parts : TryParts) (env d : Nat) (rb : R) : Cut :=
   | _ => none
 
 /-- cut of the finally stage, given the result of body + handler -/
-def oFinally (k : List Bool) (parts : TryParts) (env d : Nat) (rh : R) : Cut :=
+def oFinally (k : List Fr) (parts : TryParts) (env d : Nat) (rh : R) : Cut :=
   match rh with
   | (.oof, _) => none
   | (_, s2) =>
@@ -249,29 +267,29 @@ def oFinally (k : List Bool) (parts : TryParts) (env d : Nat) (rh : R) : Cut :=
     | some fin => o.doForms k s2 env fin 0 false d
 
 /-- the three stages of a try form run with this form pushed on the stack of live try forms -/
-def oTryArm (k : List Bool) (st : State) (env : Nat) (parts : TryParts) (d : Nat) : Cut :=
-  let k' := parts.finallyDo.isSome :: k
+def oTryArm (k : List Fr) (st : State) (env : Nat) (parts : TryParts) (d : Nat) : Cut :=
+  let k' := Fr.tr parts.finallyDo.isSome :: k
   let rb := doForms F st env parts.body 0 false d
   let rh := handlerStage F parts env d rb
   ((o.doForms k' st env parts.body 0 false d).orElse fun _ => oHandler o k' parts env d rb).orElse fun _ =>
     oFinally o k' parts env d rh
 
-def oTryForm (k : List Bool) (st : State) (env : Nat) (lst operands : List Val) (d : Nat) : Cut :=
+def oTryForm (k : List Fr) (st : State) (env : Nat) (lst operands : List Val) (d : Nat) : Cut :=
   if operands.isEmpty then none else
   match splitTry lst with
   | .error _ => none
   | .ok parts => oTryArm o F k st env parts d
 
-def oDoArm (k : List Bool) (st : State) (env : Nat) (lst : List Val) (d : Nat) : Cut :=
+def oDoArm (k : List Fr) (st : State) (env : Nat) (lst : List Val) (d : Nat) : Cut :=
   andThen (o.doForms k st env lst 1 true d) (doForms F st env lst 1 true d) fun next st => o.evalLoop k st env next d
 
-def oIfArm (k : List Bool) (st : State) (env : Nat) (lst : List Val) (a1 a2 : Val) (d : Nat) : Cut :=
+def oIfArm (k : List Fr) (st : State) (env : Nat) (lst : List Val) (a1 a2 : Val) (d : Nat) : Cut :=
   andThen (o.eval k st env a1 (d + 1)) (eval F st env a1 (d + 1)) fun cond st =>
     if truthy cond then o.evalLoop k st env a2 d
     else if lst.length ≥ 4 then o.evalLoop k st env (lst.getD 3 .nil) d
     else none
 
-def oCallArm (k : List Bool) (st : State) (el : List Val) (d : Nat) : Cut :=
+def oCallArm (k : List Fr) (st : State) (el : List Val) (d : Nat) : Cut :=
   match el with
   | [] => none
   | f :: args =>
@@ -283,10 +301,10 @@ def oCallArm (k : List Bool) (st : State) (el : List Val) (d : Nat) : Cut :=
     | .builtin name => o.callBuiltin k st name args d
     | _ => none
 
-def oAppArm (k : List Bool) (st : State) (env : Nat) (lst : List Val) (d : Nat) : Cut :=
+def oAppArm (k : List Fr) (st : State) (env : Nat) (lst : List Val) (d : Nat) : Cut :=
   andThen (o.evalList k st env lst d) (evalList F st env lst d) fun el st => oCallArm o k st el d
 
-def oDispatch (k : List Bool) (st : State) (env : Nat) (a0 : Val) (operands : List Val) (d : Nat) : Cut :=
+def oDispatch (k : List Fr) (st : State) (env : Nat) (a0 : Val) (operands : List Val) (d : Nat) : Cut :=
   let lst := a0 :: operands
   let a1 := operands.getD 0 .nil
   let a2 := operands.getD 1 .nil
@@ -304,20 +322,20 @@ def oDispatch (k : List Bool) (st : State) (env : Nat) (a0 : Val) (operands : Li
   else if a0sym = "fn" then none
   else oAppArm o F k st env lst d
 
-def oAfterExpand (k : List Bool) (st : State) (env : Nat) (ast : Val) (d : Nat) : Cut :=
+def oAfterExpand (k : List Fr) (st : State) (env : Nat) (ast : Val) (d : Nat) : Cut :=
   match ast with
   | .list [] _ => none
   | .list (a0 :: operands) _ => oDispatch o F k st env a0 operands d
   | _ => o.evalAst k st env ast d
 
-def oLiveBody (k : List Bool) (st : State) (env : Nat) (ast : Val) (d : Nat) : Cut :=
+def oLiveBody (k : List Fr) (st : State) (env : Nat) (ast : Val) (d : Nat) : Cut :=
   match ast with
   | .list _ _ =>
     andThen (o.macroexpand k st env ast d) (macroexpand F st env ast d) fun ast st => oAfterExpand o F k st env ast d
   | _ => o.evalAst k st env ast d
 
 /-- one iteration of the loop: the poll that reports "done" IS the cut -/
-def oLoopBody (k : List Bool) (st : State) (env : Nat) (ast : Val) (d : Nat) : Cut :=
+def oLoopBody (k : List Fr) (st : State) (env : Nat) (ast : Val) (d : Nat) : Cut :=
   if st.poll.1 then some (st, k) else oLiveBody o F k st.poll.2 env ast d
 
 end arms
@@ -354,42 +372,35 @@ theorem Quiet.refl (a : State) : Quiet a a := ⟨rfl, rfl, rfl⟩
 theorem Quiet.trans {a b c : State} (h1 : Quiet a b) (h2 : Quiet b c) : Quiet a c :=
   ⟨h2.1.trans h1.1, h2.2.1.trans h1.2.1, h2.2.2.trans h1.2.2⟩
 
-/-- What a run that starts at poll count `ta` with `k` as the stack of live try forms, ends in state `b`
+/-- What a run that starts at poll count `ta` with `k` as the stack of live frames, ends in state `b`
     (`ok` = it returned a value) and has cut `c` satisfies, when the context is cancelled from poll `n` on.
     `b.ticks + (if ok then 1 else 0)` is the potential: a run that comes back with a VALUE after the cut (a
     `finally` discarded the timeout) makes its caller poll once more. -/
-structure Inv (n : Nat) (k : List Bool) (ta : Nat) (ok : Bool) (b : State) (c : Cut) : Prop where
+structure Inv (n : Nat) (k : List Fr) (ta : Nat) (ok : Bool) (b : State) (c : Cut) : Prop where
   le : ta ≤ b.ticks
   none_le : c = none → b.ticks ≤ max ta n
+  /-- a run entered after the deadline: at most one poll, none when it returns a value -/
+  post : n < ta → b.ticks + (if ok then 1 else 0) ≤ ta + 1
   cut : ∀ sc stk, c = some (sc, stk) → sc.ticks = max ta n ∧ sc.ticks < b.ticks ∧
-      ∃ ext, stk = ext ++ k ∧ (n < ta → ext = []) ∧
+      ∃ ext, stk = ext ++ k ∧
         b.ticks + (if ok then 1 else 0) ≤ max ta n + 1 + 2 * ext.length ∧
-        ((∀ x ∈ ext, x = false) → ok = false ∧ Quiet sc b)
+        ((∀ x ∈ ext, x.swallows = false) → ok = false ∧ Quiet sc b)
 
-variable {n : Nat} {k : List Bool} {ta : Nat}
+variable {n : Nat} {k : List Fr} {ta : Nat}
+
+theorem ite01_le (b : Bool) : (if b = true then 1 else 0) ≤ 1 := by cases b <;> simp
 
 /-- a run without a poll -/
 theorem Inv.noPoll {ok : Bool} {b : State} (hb : b.ticks = ta) : Inv n k ta ok b none :=
-  ⟨by omega, fun _ => by omega, fun _ _ h => by cases h⟩
+  ⟨by omega, fun _ => by omega, fun _ => by have := ite01_le ok; omega, fun _ _ h => by cases h⟩
 
 /-- the live poll in front of a run -/
 theorem Inv.tick {ok : Bool} {b : State} {c : Cut} (hlt : ta < n) (h : Inv n k (ta + 1) ok b c) :
     Inv n k ta ok b c := by
-  refine ⟨by have := h.le; omega, fun hc => by have := h.none_le hc; omega, fun sc stk hc => ?_⟩
-  obtain ⟨h1, h2, ext, h3, h4, h5, h6⟩ := h.cut sc stk hc
-  exact ⟨by omega, h2, ext, h3, fun hh => by omega, by omega, h6⟩
-
-/-- after the cut (or when it started after the deadline) a run polls at most once, and not at all when it
-    returns a value -/
-theorem Inv.post {ok : Bool} {b : State} {c : Cut} (h : Inv n k ta ok b c) (hta : n < ta) :
-    b.ticks + (if ok then 1 else 0) ≤ ta + 1 := by
-  cases c with
-  | none => have := h.none_le rfl; split <;> omega
-  | some x =>
-    obtain ⟨sc, stk⟩ := x
-    obtain ⟨h1, h2, ext, h3, h4, h5, h6⟩ := h.cut sc stk rfl
-    have := h4 hta; subst this
-    simp at h5; omega
+  refine ⟨by have := h.le; omega, fun hc => by have := h.none_le hc; omega, fun hh => by omega,
+    fun sc stk hc => ?_⟩
+  obtain ⟨h1, h2, ext, h3, h5, h6⟩ := h.cut sc stk hc
+  exact ⟨by omega, h2, ext, h3, by omega, h6⟩
 
 /-- `run1; run2` where `run1` returned a value -/
 theorem Inv.seq {ok1 ok2 : Bool} {b1 b2 : State} {c1 c2 : Cut} (h1 : Inv n k ta ok1 b1 c1)
@@ -397,21 +408,26 @@ theorem Inv.seq {ok1 ok2 : Bool} {b1 b2 : State} {c1 c2 : Cut} (h1 : Inv n k ta 
   subst hok
   have l1 := h1.le
   have l2 := h2.le
+  have hpost : n < ta → b2.ticks + (if ok2 = true then 1 else 0) ≤ ta + 1 := by
+    intro hh
+    have p1 := h1.post hh
+    have p2 := h2.post (by omega)
+    simp at p1; omega
   cases c1 with
   | none =>
     have m1 := h1.none_le rfl
-    refine ⟨by omega, fun hc => ?_, fun sc stk hc => ?_⟩
+    refine ⟨by omega, fun hc => ?_, hpost, fun sc stk hc => ?_⟩
     · have := h2.none_le (by simpa using hc); omega
-    · obtain ⟨e1, e2, ext, e3, e4, e5, e6⟩ := h2.cut sc stk (by simpa using hc)
-      exact ⟨by omega, e2, ext, e3, fun hh => e4 (by omega), by omega, e6⟩
+    · obtain ⟨e1, e2, ext, e3, e5, e6⟩ := h2.cut sc stk (by simpa using hc)
+      exact ⟨by omega, e2, ext, e3, by omega, e6⟩
   | some x =>
     obtain ⟨sc, stk⟩ := x
-    obtain ⟨e1, e2, ext, e3, e4, e5, e6⟩ := h1.cut sc stk rfl
+    obtain ⟨e1, e2, ext, e3, e5, e6⟩ := h1.cut sc stk rfl
     have p := h2.post (by omega)
-    refine ⟨by omega, fun hc => by simp at hc, fun sc' stk' hc => ?_⟩
+    refine ⟨by omega, fun hc => by simp at hc, hpost, fun sc' stk' hc => ?_⟩
     simp only [Option.orElse_some, Option.some.injEq, Prod.mk.injEq] at hc
     obtain ⟨rfl, rfl⟩ := hc
-    refine ⟨e1, by omega, ext, e3, e4, ?_, fun hall => ?_⟩
+    refine ⟨e1, by omega, ext, e3, ?_, fun hall => ?_⟩
     · simp at e5; omega
     · exact absurd (e6 hall).1 (by simp)
 
@@ -427,13 +443,11 @@ theorem andThen_oof {α} (c : Cut) (st : State) (g : α → State → Cut) :
     andThen c (.oof, st) g = c := by
   cases c <;> rfl
 
-theorem ite01_le (b : Bool) : (if b = true then 1 else 0) ≤ 1 := by cases b <;> simp
-
-/-- the three stages of a try form (each run with the form pushed on the stack): body, handler (only after an
-    error), finally (always); the value of the form is the pending one -/
+/-- the three stages of a try form entered before the deadline (each run with the form pushed on the stack):
+    body, handler (only after an error), finally (always); the value of the form is the pending one -/
 theorem Inv.try3 {hf ok1 ok2 ok3 okf : Bool} {s1 s2 s3 : State} {c1 c2 c3 : Cut} (hta : ta ≤ n)
-    (h1 : Inv n (hf :: k) ta ok1 s1 c1) (h2 : Inv n (hf :: k) s1.ticks ok2 s2 c2)
-    (h3 : Inv n (hf :: k) s2.ticks ok3 s3 c3)
+    (h1 : Inv n (.tr hf :: k) ta ok1 s1 c1) (h2 : Inv n (.tr hf :: k) s1.ticks ok2 s2 c2)
+    (h3 : Inv n (.tr hf :: k) s2.ticks ok3 s3 c3)
     (hH : ok1 = true → s2 = s1 ∧ ok2 = true) (hokf : okf = true → ok2 = true)
     (hB2 : hf = false → n < s1.ticks → ok1 = false → ok2 = false ∧ Quiet s1 s2)
     (hB3 : hf = false → s3 = s2 ∧ c3 = none) :
@@ -443,21 +457,22 @@ theorem Inv.try3 {hf ok1 ok2 ok3 okf : Bool} {s1 s2 s3 : State} {c1 c2 c3 : Cut}
   have l3 := h3.le
   have hokf' : (if okf = true then 1 else 0) ≤ (if ok2 = true then 1 else 0) := by
     cases okf <;> cases ok2 <;> simp_all
-  have hext : ∀ ext : List Bool, ext ++ hf :: k = (ext ++ [hf]) ++ k := by intro ext; simp
-  have hall : ∀ ext : List Bool, (∀ x ∈ ext ++ [hf], x = false) → hf = false ∧ ∀ x ∈ ext, x = false := by
+  have hext : ∀ ext : List Fr, ext ++ Fr.tr hf :: k = (ext ++ [Fr.tr hf]) ++ k := by intro ext; simp
+  have hall : ∀ ext : List Fr, (∀ x ∈ ext ++ [Fr.tr hf], x.swallows = false) →
+      hf = false ∧ ∀ x ∈ ext, x.swallows = false := by
     intro ext h
-    exact ⟨h hf (by simp), fun x hx => h x (by simp [hx])⟩
+    exact ⟨h (.tr hf) (by simp), fun x hx => h x (by simp [hx])⟩
   cases c1 with
   | some x =>
     obtain ⟨sc, stk⟩ := x
-    obtain ⟨e1, e2, ext, e3, e4, e5, e6⟩ := h1.cut sc stk rfl
+    obtain ⟨e1, e2, ext, e3, e5, e6⟩ := h1.cut sc stk rfl
     have p2 := h2.post (by omega)
     have p3 := h3.post (by omega)
     have o3 := ite01_le ok3
-    refine ⟨by omega, fun hc => by simp at hc, fun sc' stk' hc => ?_⟩
+    refine ⟨by omega, fun hc => by simp at hc, fun hh => by omega, fun sc' stk' hc => ?_⟩
     simp only [Option.orElse_some, Option.some.injEq, Prod.mk.injEq] at hc
     obtain ⟨rfl, rfl⟩ := hc
-    refine ⟨e1, by omega, ext ++ [hf], by rw [e3, hext], fun hh => by omega, ?_, fun ha => ?_⟩
+    refine ⟨e1, by omega, ext ++ [Fr.tr hf], by rw [e3, hext], ?_, fun ha => ?_⟩
     · have : s2.ticks + (if ok2 = true then 1 else 0) ≤ s1.ticks + (if ok1 = true then 1 else 0) + 1 := by
         cases ok1 with
         | true => obtain ⟨rfl, rfl⟩ := hH rfl; simp
@@ -478,13 +493,13 @@ theorem Inv.try3 {hf ok1 ok2 ok3 okf : Bool} {s1 s2 s3 : State} {c1 c2 c3 : Cut}
     cases c2 with
     | some x =>
       obtain ⟨sc, stk⟩ := x
-      obtain ⟨e1, e2, ext, e3, e4, e5, e6⟩ := h2.cut sc stk rfl
+      obtain ⟨e1, e2, ext, e3, e5, e6⟩ := h2.cut sc stk rfl
       have p3 := h3.post (by omega)
       have o3 := ite01_le ok3
-      refine ⟨by omega, fun hc => by simp at hc, fun sc' stk' hc => ?_⟩
+      refine ⟨by omega, fun hc => by simp at hc, fun hh => by omega, fun sc' stk' hc => ?_⟩
       simp only [Option.orElse_none, Option.orElse_some, Option.some.injEq, Prod.mk.injEq] at hc
       obtain ⟨rfl, rfl⟩ := hc
-      refine ⟨by omega, by omega, ext ++ [hf], by rw [e3, hext], fun hh => by omega, ?_, fun ha => ?_⟩
+      refine ⟨by omega, by omega, ext ++ [Fr.tr hf], by rw [e3, hext], ?_, fun ha => ?_⟩
       · simp only [List.length_append, List.length_cons, List.length_nil]
         omega
       · obtain ⟨hf0, hx⟩ := hall ext ha
@@ -499,19 +514,91 @@ theorem Inv.try3 {hf ok1 ok2 ok3 okf : Bool} {s1 s2 s3 : State} {c1 c2 c3 : Cut}
       cases c3 with
       | none =>
         have m3 := h3.none_le rfl
-        exact ⟨by omega, fun _ => by omega, fun _ _ hc => by simp at hc⟩
+        exact ⟨by omega, fun _ => by omega, fun hh => by omega, fun _ _ hc => by simp at hc⟩
       | some x =>
         obtain ⟨sc, stk⟩ := x
-        obtain ⟨e1, e2, ext, e3, e4, e5, e6⟩ := h3.cut sc stk rfl
+        obtain ⟨e1, e2, ext, e3, e5, e6⟩ := h3.cut sc stk rfl
         have o3 := ite01_le okf
-        refine ⟨by omega, fun hc => by simp at hc, fun sc' stk' hc => ?_⟩
+        refine ⟨by omega, fun hc => by simp at hc, fun hh => by omega, fun sc' stk' hc => ?_⟩
         simp only [Option.orElse_none, Option.some.injEq, Prod.mk.injEq] at hc
         obtain ⟨rfl, rfl⟩ := hc
-        refine ⟨by omega, by omega, ext ++ [hf], by rw [e3, hext], fun hh => by omega, ?_, fun ha => ?_⟩
+        refine ⟨by omega, by omega, ext ++ [Fr.tr hf], by rw [e3, hext], ?_, fun ha => ?_⟩
         · simp only [List.length_append, List.length_cons, List.length_nil]
           omega
         · obtain ⟨hf0, _⟩ := hall ext ha
           exact absurd (hB3 hf0).2 (by simp)
+
+/-- the stronger invariant of `macroexpand`: a cut inside it falls inside the evaluation of a macro body, and
+    the macro frame leaves two polls of slack (for the try form the expansion may be) -/
+structure InvM (n : Nat) (k : List Fr) (ta : Nat) (ok : Bool) (b : State) (c : Cut) : Prop where
+  inv : Inv n k ta ok b c
+  slack : ta ≤ n → ∀ sc ext, c = some (sc, ext ++ k) →
+    b.ticks + (if ok then 1 else 0) + 2 ≤ n + 1 + 2 * ext.length
+
+theorem InvM.noPoll {ok : Bool} {b : State} (hb : b.ticks = ta) : InvM n k ta ok b none :=
+  ⟨Inv.noPoll hb, fun _ _ _ h => by cases h⟩
+
+/-- the evaluation of a macro body, seen from the expansion that pushed the macro frame -/
+theorem Inv.pushMac {ok : Bool} {b : State} {c : Cut} (h : Inv n (.mac :: k) ta ok b c) : InvM n k ta ok b c := by
+  have hext : ∀ ext : List Fr, ext ++ Fr.mac :: k = (ext ++ [Fr.mac]) ++ k := by intro ext; simp
+  refine ⟨⟨h.le, h.none_le, h.post, fun sc stk hc => ?_⟩, fun hta sc ext' hc => ?_⟩
+  · obtain ⟨e1, e2, ext, e3, e5, e6⟩ := h.cut sc stk hc
+    refine ⟨e1, e2, ext ++ [Fr.mac], by rw [e3, hext], ?_, fun ha => e6 fun x hx => ha x (by simp [hx])⟩
+    simp only [List.length_append, List.length_cons, List.length_nil]; omega
+  · obtain ⟨e1, e2, ext, e3, e5, e6⟩ := h.cut sc _ hc
+    rw [hext] at e3
+    have := List.append_cancel_right e3
+    subst this
+    simp only [List.length_append, List.length_cons, List.length_nil]; omega
+
+theorem InvM.seq {ok1 ok2 : Bool} {b1 b2 : State} {c1 c2 : Cut} (h1 : InvM n k ta ok1 b1 c1)
+    (hok : ok1 = true) (h2 : InvM n k b1.ticks ok2 b2 c2) : InvM n k ta ok2 b2 (c1.orElse fun _ => c2) := by
+  refine ⟨h1.inv.seq hok h2.inv, fun hta sc ext hc => ?_⟩
+  subst hok
+  cases c1 with
+  | none =>
+    have m1 := h1.inv.none_le rfl
+    exact h2.slack (by omega) sc ext (by simpa using hc)
+  | some x =>
+    obtain ⟨sc1, stk⟩ := x
+    simp only [Option.orElse_some, Option.some.injEq, Prod.mk.injEq] at hc
+    obtain ⟨rfl, rfl⟩ := hc
+    have s1 := h1.slack hta sc1 ext rfl
+    obtain ⟨e1, e2, _⟩ := h1.inv.cut sc1 _ rfl
+    have p := h2.inv.post (by omega)
+    simp at s1; omega
+
+/-- `macroexpand; dispatch of the expansion` (same loop iteration, no poll in between): the expansion may be a
+    `try` form that is entered after the deadline; the slack of the macro frame pays for its three polls -/
+theorem InvM.seq_after {ok1 ok2 : Bool} {b1 b2 : State} {c1 c2 : Cut} (h1 : InvM n k ta ok1 b1 c1)
+    (hta : ta ≤ n) (hok : ok1 = true) (h2 : b1.ticks ≤ n → Inv n k b1.ticks ok2 b2 c2)
+    (h2' : n < b1.ticks → b1.ticks ≤ b2.ticks ∧ b2.ticks + (if ok2 then 1 else 0) ≤ b1.ticks + 3) :
+    Inv n k ta ok2 b2 (c1.orElse fun _ => c2) := by
+  cases c1 with
+  | none =>
+    have m1 := h1.inv.none_le rfl
+    exact h1.inv.seq hok (h2 (by omega))
+  | some x =>
+    obtain ⟨sc, stk⟩ := x
+    subst hok
+    obtain ⟨e1, e2, ext, e3, e5, e6⟩ := h1.inv.cut sc stk rfl
+    subst e3
+    have s1 := h1.slack hta sc ext rfl
+    obtain ⟨q1, q2⟩ := h2' (by omega)
+    have l1 := h1.inv.le
+    refine ⟨by omega, fun hc => by simp at hc, fun hh => by omega, fun sc' stk' hc => ?_⟩
+    simp only [Option.orElse_some, Option.some.injEq, Prod.mk.injEq] at hc
+    obtain ⟨rfl, rfl⟩ := hc
+    refine ⟨e1, by omega, ext, rfl, ?_, fun ha => absurd (e6 ha).1 (by simp)⟩
+    simp at s1; omega
+
+/-- what is left of `Inv` for a piece of the loop body that runs after the deadline without a poll in front
+    of it: at most three polls (a try form: body, handler, finally) -/
+def W (ta : Nat) (ok : Bool) (b : State) : Prop :=
+  ta ≤ b.ticks ∧ b.ticks + (if ok then 1 else 0) ≤ ta + 3
+
+theorem Inv.toW {ok : Bool} {b : State} {c : Cut} (h : Inv n k ta ok b c) (hlt : n < ta) : W ta ok b :=
+  ⟨h.le, by have := h.post hlt; omega⟩
 
 /-! ## §3 the induction over the block -/
 
@@ -550,7 +637,7 @@ structure AllInv (n F : Nat) : Prop where
     Inv n k st.ticks (okB (letBinds F st env bs a1 d).1) (letBinds F st env bs a1 d).2
       ((obs F).letBinds k st env bs a1 d)
   macroexpand : ∀ k st env ast d, Good n st →
-    Inv n k st.ticks (okB (macroexpand F st env ast d).1) (macroexpand F st env ast d).2
+    InvM n k st.ticks (okB (macroexpand F st env ast d).1) (macroexpand F st env ast d).2
       ((obs F).macroexpand k st env ast d)
   apply : ∀ k st f args d, Good n st →
     Inv n k st.ticks (okB (apply F st f args d).1) (apply F st f args d).2 ((obs F).apply k st f args d)
@@ -574,12 +661,36 @@ theorem allInv_zero : AllInv n 0 := by
   · rw [evalMap]; exact Inv.noPoll rfl
   · rw [doForms]; exact Inv.noPoll rfl
   · rw [letBinds]; exact Inv.noPoll rfl
-  · rw [macroexpand]; exact Inv.noPoll rfl
+  · rw [macroexpand]; exact InvM.noPoll rfl
   · rw [apply]; exact Inv.noPoll rfl
   · rw [mapLoop]; exact Inv.noPoll rfl
   · rw [updateIn]; exact Inv.noPoll rfl
   · rw [update1.eq_def]; exact Inv.noPoll rfl
   · rw [callBuiltin.eq_def]; exact Inv.noPoll rfl
+
+/-! the catch clause accepted by `splitTry` has at least one handler form -/
+
+theorem clause_ne {c : Val} {b : Val} {dd : List Val}
+    (h : (match c with
+      | .list (_ :: b :: d) _ => if d.isEmpty then (Except.error "catch must have 2 arguments at least" : Except String (Val × List Val)) else .ok (b, d)
+      | _ => .error "catch must have 2 arguments at least") = .ok (b, dd)) : dd ≠ [] := by
+  split at h
+  · split at h
+    · cases h
+    · cases h; rename_i hne; intro e; subst e; exact hne rfl
+  · cases h
+
+theorem splitTry_handler_ne {lst : List Val} {parts : TryParts} (h : splitTry lst = .ok parts) :
+    ∀ hd, parts.catchDo = some hd → hd ≠ [] := by
+  unfold splitTry at h
+  dsimp only at h
+  repeat' (split at h)
+  all_goals (cases h)
+  all_goals (intro hd e; cases e)
+  all_goals first
+    | exact clause_ne (by assumption)
+    | (have hfalse : firstSym Val.nil = "catch" := by assumption
+       simp [firstSym] at hfalse)
 
 section step
 variable {F : Nat} (ih : AllInv n F)
@@ -735,13 +846,13 @@ theorem Inv.weaken {ok ok' : Bool} {b : State} {c : Cut} (h : Inv n k ta ok b c)
     cases ok with
     | false => exact h
     | true =>
-      refine ⟨h.le, h.none_le, fun sc stk hc => ?_⟩
-      obtain ⟨h1, h2, ext, h3, h4, h5, h6⟩ := h.cut sc stk hc
-      refine ⟨h1, h2, ext, h3, h4, ?_, fun ha => absurd (h6 ha).1 (by simp)⟩
+      refine ⟨h.le, h.none_le, fun hlt => by have := h.post hlt; simp at this ⊢; omega, fun sc stk hc => ?_⟩
+      obtain ⟨h1, h2, ext, h3, h5, h6⟩ := h.cut sc stk hc
+      refine ⟨h1, h2, ext, h3, ?_, fun ha => absurd (h6 ha).1 (by simp)⟩
       simp at h5 ⊢; omega
 
 /-- the tail of `update` / `_update`: `assoc` on the value of the callback -/
-theorem update1_tail (k : List Bool) (st : State) (f : Val) (c : Val) (d : Nat) (hg : Good n st)
+theorem update1_tail (k : List Fr) (st : State) (f : Val) (c : Val) (d : Nat) (hg : Good n st)
     (post : Val → BRes) :
     Inv n k st.ticks
       (okB (match apply F st f [c] d with
@@ -830,20 +941,20 @@ theorem updateIn_inv (k st v path f d) (hg : Good n st) :
         | oof => exact h1
 
 theorem macroexpand_inv (k st env ast d) (hg : Good n st) :
-    Inv n k st.ticks (okB (macroexpand (F + 1) st env ast d).1) (macroexpand (F + 1) st env ast d).2
+    InvM n k st.ticks (okB (macroexpand (F + 1) st env ast d).1) (macroexpand (F + 1) st env ast d).2
       (oMacroexpand (obs F) F k st env ast d) := by
   rw [macroexpand_shape]; simp only [oMacroexpand]
   cases macroCall st env ast with
-  | none => exact Inv.noPoll rfl
+  | none => exact InvM.noPoll rfl
   | some x =>
     obtain ⟨params, body, fenv, args⟩ := x
     dsimp only
     cases bindParams params args with
-    | error e => exact Inv.noPoll rfl
+    | error e => exact InvM.noPoll rfl
     | ok data =>
       dsimp only
       have hg0 : Good n (st.newScope fenv data).1 := hg.newScope fenv data
-      have h1 := ih.eval k (st.newScope fenv data).1 (st.newScope fenv data).2 body (d + 1) hg0
+      have h1 := (ih.eval (.mac :: k) (st.newScope fenv data).1 (st.newScope fenv data).2 body (d + 1) hg0).pushMac
       have g1 : Good n (eval F (st.newScope fenv data).1 (st.newScope fenv data).2 body (d + 1)).2 :=
         hg0.frame ((frame F).eval pairEta)
       generalize eval F (st.newScope fenv data).1 (st.newScope fenv data).2 body (d + 1) = p at h1 g1 ⊢
@@ -851,10 +962,737 @@ theorem macroexpand_inv (k st env ast d) (hg : Good n st) :
       cases r1 with
       | ok v =>
         simp only [andThen_ok]
-        exact Inv.seq h1 rfl (ih.macroexpand k b1 env v d g1)
+        exact InvM.seq h1 rfl (ih.macroexpand k b1 env v d g1)
       | err e => simp only [andThen_err]; exact h1
       | oof => simp only [andThen_oof]; exact h1
 
+omit ih in
+theorem inv_ite {c : Prop} [Decidable c] {x y : R} {cx cy : Cut}
+    (hx : c → Inv n k ta (okB x.1) x.2 cx) (hy : ¬c → Inv n k ta (okB y.1) y.2 cy) :
+    Inv n k ta (okB (if c then x else y).1) (if c then x else y).2 (if c then cx else cy) := by
+  split
+  · exact hx ‹_›
+  · exact hy ‹_›
+
+omit ih in
+/-- a value returned in a state that differs from the callee's final state only outside the poll counter -/
+theorem Inv.ok_modify {b b' : State} {c : Cut} (h : Inv n k ta true b c) (hb : b'.ticks = b.ticks) :
+    Inv n k ta true b' c := by
+  refine ⟨by rw [hb]; exact h.le, fun hc => by rw [hb]; exact h.none_le hc,
+    fun hlt => by rw [hb]; exact h.post hlt, fun sc stk hc => ?_⟩
+  obtain ⟨h1, h2, ext, h3, h5, h6⟩ := h.cut sc stk hc
+  exact ⟨h1, by rw [hb]; exact h2, ext, h3, by rw [hb]; exact h5, fun ha => absurd (h6 ha).1 (by simp)⟩
+
+theorem callBuiltin_inv (k st name args d) (hg : Good n st) :
+    Inv n k st.ticks (okB (callBuiltin (F + 1) st name args d).1) (callBuiltin (F + 1) st name args d).2
+      (oCallBuiltin (obs F) k st name args d) := by
+  rw [callBuiltin.eq_def]; dsimp only; unfold oCallBuiltin
+  refine inv_ite (fun _ => ?_) (fun _ => ?_)
+  · split <;> exact Inv.noPoll rfl
+  refine inv_ite (fun _ => ?_) (fun _ => ?_)
+  · split <;> exact Inv.noPoll rfl
+  refine inv_ite (fun _ => ?_) (fun _ => ?_)
+  · rcases args with _ | ⟨a, _ | ⟨b, rest⟩⟩
+    · exact Inv.noPoll rfl
+    · exact ih.eval k st 0 a (d + 1) hg
+    · exact Inv.noPoll rfl
+  refine inv_ite (fun _ => ?_) (fun _ => ?_)
+  · rcases args with _ | ⟨f, rest⟩
+    · exact Inv.noPoll rfl
+    · dsimp only
+      cases rest.getLast? with
+      | none => exact Inv.noPoll rfl
+      | some last =>
+        dsimp only
+        cases seqOf? last with
+        | none => exact Inv.noPoll rfl
+        | some tail => exact ih.apply k st f _ d hg
+  refine inv_ite (fun _ => ?_) (fun _ => ?_)
+  · rcases args with _ | ⟨f, _ | ⟨s, _ | ⟨x, rest⟩⟩⟩
+    · exact Inv.noPoll rfl
+    · exact Inv.noPoll rfl
+    · dsimp only
+      cases seqOf? s with
+      | none => exact Inv.noPoll rfl
+      | some xs =>
+        dsimp only
+        have h1 := ih.mapLoop k st f xs d hg
+        generalize mapLoop F st f xs d = p at h1 ⊢
+        obtain ⟨r1, b1⟩ := p
+        cases r1 <;> exact h1
+    · exact Inv.noPoll rfl
+  refine inv_ite (fun _ => ?_) (fun _ => ?_)
+  · split <;> exact Inv.noPoll rfl
+  refine inv_ite (fun _ => ?_) (fun _ => ?_)
+  · split <;> exact Inv.noPoll rfl
+  refine inv_ite (fun _ => ?_) (fun _ => ?_)
+  · split <;> exact Inv.noPoll rfl
+  refine inv_ite (fun _ => ?_) (fun _ => ?_)
+  · rcases args with _ | ⟨x, _ | ⟨f, extra⟩⟩
+    · exact Inv.noPoll rfl
+    · cases x <;> exact Inv.noPoll rfl
+    · cases x
+      case atom id =>
+        dsimp only
+        have h1 := ih.apply k st f (st.atoms.getD id .nil :: extra) d hg
+        generalize apply F st f (st.atoms.getD id .nil :: extra) d = p at h1 ⊢
+        obtain ⟨r1, b1⟩ := p
+        cases r1 with
+        | ok v => exact Inv.ok_modify h1 rfl
+        | err e => exact h1
+        | oof => exact h1
+      all_goals exact Inv.noPoll rfl
+  refine inv_ite (fun _ => ?_) (fun _ => ?_)
+  · rcases args with _ | ⟨v, _ | ⟨i, _ | ⟨f, _ | ⟨y, rest⟩⟩⟩⟩
+    · exact Inv.noPoll rfl
+    · cases v <;> exact Inv.noPoll rfl
+    · cases v <;> exact Inv.noPoll rfl
+    · cases v
+      case nil => exact Inv.noPoll rfl
+      all_goals exact ih.update1 k st _ i f d hg
+    · cases v <;> exact Inv.noPoll rfl
+  refine inv_ite (fun _ => ?_) (fun _ => ?_)
+  · rcases args with _ | ⟨v, _ | ⟨i, _ | ⟨f, _ | ⟨y, rest⟩⟩⟩⟩
+    · exact Inv.noPoll rfl
+    · exact Inv.noPoll rfl
+    · cases i <;> exact Inv.noPoll rfl
+    · cases i
+      case vec path pp =>
+        cases v
+        case nil => exact Inv.noPoll rfl
+        all_goals exact ih.updateIn k st _ path f d hg
+      all_goals exact Inv.noPoll rfl
+    · cases i <;> exact Inv.noPoll rfl
+  · split <;> exact Inv.noPoll rfl
+
+/-! the arms of the loop -/
+
+theorem cont_inv (k st env ast d) (hg : Good n st) :
+    Inv n k st.ticks (okB (continueWith F d st env ast).1) (continueWith F d st env ast).2
+      ((obs F).evalLoop k st env ast d) := by
+  rw [continueWith_noStepper hg.2]; exact ih.evalLoop k st env ast d hg
+
+theorem defArm_inv (k st env a1 a2 ast d) (hg : Good n st) :
+    Inv n k st.ticks (okB (defArm F st env a1 a2 ast d).1) (defArm F st env a1 a2 ast d).2
+      ((obs F).eval k st env a2 (d + 1)) := by
+  unfold defArm
+  have h1 := ih.eval k st env a2 (d + 1) hg
+  generalize eval F st env a2 (d + 1) = p at h1 ⊢
+  obtain ⟨r1, b1⟩ := p
+  cases r1 with
+  | ok res =>
+    cases a1
+    case sym name q => exact Inv.ok_modify h1 (set_ticks _ _ _ _)
+    all_goals exact h1.weaken (by simp [okB])
+  | err e => exact h1
+  | oof => exact h1
+
+theorem defmacroArm_inv (k st env a1 a2 ast d) (hg : Good n st) :
+    Inv n k st.ticks (okB (defmacroArm F st env a1 a2 ast d).1) (defmacroArm F st env a1 a2 ast d).2
+      ((obs F).eval k st env a2 (d + 1)) := by
+  unfold defmacroArm
+  have h1 := ih.eval k st env a2 (d + 1) hg
+  generalize eval F st env a2 (d + 1) = p at h1 ⊢
+  obtain ⟨r1, b1⟩ := p
+  cases r1 with
+  | ok res =>
+    cases res
+    case fn ps b e m q =>
+      cases a1
+      case sym name q => exact Inv.ok_modify h1 (set_ticks _ _ _ _)
+      all_goals exact h1.weaken (by simp [okB])
+    all_goals exact h1.weaken (by simp [okB])
+  | err e => exact h1
+  | oof => exact h1
+
+theorem letArm_inv (k st env lst a1 d) (hg : Good n st) :
+    Inv n k st.ticks (okB (letArm F st env lst a1 d).1) (letArm F st env lst a1 d).2
+      (oLetArm (obs F) F k st env lst a1 d) := by
+  unfold letArm oLetArm
+  dsimp only
+  cases seqOf? a1 with
+  | none => exact Inv.noPoll rfl
+  | some arr1 =>
+    dsimp only
+    split
+    · exact Inv.noPoll rfl
+    · have hg0 : Good n (st.newScope env []).1 := hg.newScope env []
+      have h1 := ih.letBinds k (st.newScope env []).1 (st.newScope env []).2 arr1 a1 d hg0
+      have g1 : Good n (letBinds F (st.newScope env []).1 (st.newScope env []).2 arr1 a1 d).2 :=
+        hg0.frame ((frame F).letBinds pairEta)
+      generalize letBinds F (st.newScope env []).1 (st.newScope env []).2 arr1 a1 d = p at h1 g1 ⊢
+      obtain ⟨r1, b1⟩ := p
+      cases r1 with
+      | ok v =>
+        simp only [andThen_ok]
+        refine Inv.seq h1 rfl ?_
+        have h2 := ih.doForms k b1 (st.newScope env []).2 lst 2 true d g1
+        have g2 : Good n (doForms F b1 (st.newScope env []).2 lst 2 true d).2 := g1.frame ((frame F).doForms pairEta)
+        generalize doForms F b1 (st.newScope env []).2 lst 2 true d = q at h2 g2 ⊢
+        obtain ⟨r2, b2⟩ := q
+        cases r2 with
+        | ok next =>
+          simp only [andThen_ok]
+          exact Inv.seq h2 rfl (cont_inv ih k b2 _ next d g2)
+        | err e => simp only [andThen_err]; exact h2
+        | oof => simp only [andThen_oof]; exact h2
+      | err e => simp only [andThen_err]; exact h1
+      | oof => simp only [andThen_oof]; exact h1
+
+theorem doArm_inv (k st env lst d) (hg : Good n st) :
+    Inv n k st.ticks (okB (doArm F st env lst d).1) (doArm F st env lst d).2
+      (oDoArm (obs F) F k st env lst d) := by
+  unfold doArm oDoArm
+  have h2 := ih.doForms k st env lst 1 true d hg
+  have g2 : Good n (doForms F st env lst 1 true d).2 := hg.frame ((frame F).doForms pairEta)
+  generalize doForms F st env lst 1 true d = q at h2 g2 ⊢
+  obtain ⟨r2, b2⟩ := q
+  cases r2 with
+  | ok next =>
+    simp only [andThen_ok]
+    exact Inv.seq h2 rfl (cont_inv ih k b2 _ next d g2)
+  | err e => simp only [andThen_err]; exact h2
+  | oof => simp only [andThen_oof]; exact h2
+
+theorem ifArm_inv (k st env lst a1 a2 d) (hg : Good n st) :
+    Inv n k st.ticks (okB (ifArm F st env lst a1 a2 d).1) (ifArm F st env lst a1 a2 d).2
+      (oIfArm (obs F) F k st env lst a1 a2 d) := by
+  unfold ifArm oIfArm
+  have h1 := ih.eval k st env a1 (d + 1) hg
+  have g1 : Good n (eval F st env a1 (d + 1)).2 := hg.frame ((frame F).eval pairEta)
+  generalize eval F st env a1 (d + 1) = p at h1 g1 ⊢
+  obtain ⟨r1, b1⟩ := p
+  cases r1 with
+  | ok cond =>
+    simp only [andThen_ok]
+    refine Inv.seq h1 rfl ?_
+    split
+    · exact cont_inv ih k b1 _ a2 d g1
+    · split
+      · exact cont_inv ih k b1 _ _ d g1
+      · exact Inv.noPoll rfl
+  | err e => simp only [andThen_err]; exact h1
+  | oof => simp only [andThen_oof]; exact h1
+
+theorem callArm_inv (k st el ast d) (hg : Good n st) :
+    Inv n k st.ticks (okB (callArm F st el ast d).1) (callArm F st el ast d).2
+      (oCallArm (obs F) k st el d) := by
+  unfold callArm oCallArm
+  cases el with
+  | nil => exact Inv.noPoll rfl
+  | cons f args =>
+    cases f
+    case fn params body fenv m p =>
+      dsimp only
+      generalize bindParams params args = bp
+      cases bp with
+      | error e => dsimp only; split <;> exact Inv.noPoll rfl
+      | ok data => exact cont_inv ih k _ _ body d (hg.newScope fenv data)
+    case builtin name =>
+      dsimp only
+      have h1 := ih.callBuiltin k st name args d hg
+      generalize callBuiltin F st name args d = p at h1 ⊢
+      obtain ⟨r1, b1⟩ := p
+      cases r1 <;> exact h1
+    all_goals exact Inv.noPoll rfl
+
+theorem appArm_inv (k st env lst ast d) (hg : Good n st) :
+    Inv n k st.ticks (okB (appArm F st env lst ast d).1) (appArm F st env lst ast d).2
+      (oAppArm (obs F) F k st env lst d) := by
+  unfold appArm oAppArm
+  have h1 := ih.evalList k st env lst d hg
+  have g1 : Good n (evalList F st env lst d).2 := hg.frame ((frame F).evalList pairEta)
+  generalize evalList F st env lst d = p at h1 g1 ⊢
+  obtain ⟨r1, b1⟩ := p
+  cases r1 with
+  | ok el =>
+    simp only [andThen_ok]
+    exact Inv.seq h1 rfl (callArm_inv ih k b1 el ast d g1)
+  | err e => simp only [andThen_err]; exact h1
+  | oof => simp only [andThen_oof]; exact h1
+
+omit ih in
+theorem Good.cancelled {st : State} (hg : Good n st) (h : n ≤ st.ticks) : Cancelled st := ⟨n, hg.1, h⟩
+
+omit ih in
+/-- a non-empty sequence entered after the deadline does not return a value -/
+theorem doForms_cancelled_notok {st : State} (hc : Cancelled st) (hs : st.stepper = none) (F env x xs d) :
+    okB (doForms F st env (x :: xs) 0 false d).1 = false := by
+  cases F with
+  | zero => rw [doForms]; rfl
+  | succ F =>
+    rw [doForms_noStepper hs]
+    simp only [List.length_cons, Nat.le_zero_eq, Nat.add_one_ne_zero, ↓reduceIte, Bool.false_eq_true, List.drop_zero]
+    cases F with
+    | zero => rw [evalList]; rfl
+    | succ F =>
+      rw [evalList]
+      rcases eval_cancelled_any hc hs F env x (d + 1) with e | e <;> rw [e] <;> rfl
+
+theorem handler_facts (k' : List Fr) (parts : TryParts) (env d : Nat) (rb : R) (hg1 : Good n rb.2)
+    (hne : ∀ h, parts.catchDo = some h → h ≠ []) :
+    Inv n k' rb.2.ticks (okB (handlerStage F parts env d rb).1) (handlerStage F parts env d rb).2
+      (oHandler (obs F) k' parts env d rb) ∧
+    (okB rb.1 = true → (handlerStage F parts env d rb).2 = rb.2 ∧ okB (handlerStage F parts env d rb).1 = true) ∧
+    (n < rb.2.ticks → okB rb.1 = false →
+      okB (handlerStage F parts env d rb).1 = false ∧ Quiet rb.2 (handlerStage F parts env d rb).2) := by
+  obtain ⟨r, s1⟩ := rb
+  cases r with
+  | ok v => exact ⟨Inv.noPoll rfl, fun _ => ⟨rfl, rfl⟩, fun _ h => by cases h⟩
+  | oof => exact ⟨Inv.noPoll rfl, fun h => (by cases h), fun _ _ => ⟨rfl, Quiet.refl _⟩⟩
+  | err e =>
+    refine ⟨?_, fun h => (by cases h), fun hlt _ => ?_⟩
+    · unfold handlerStage oHandler
+      dsimp only
+      cases parts.catchDo with
+      | none => exact Inv.noPoll rfl
+      | some handler =>
+        cases parts.catchBind with
+        | none => exact Inv.noPoll rfl
+        | some bind =>
+          dsimp only
+          cases bindParams (.list [bind] none) [caughtValue e] with
+          | error be => exact Inv.noPoll rfl
+          | ok data => exact ih.doForms k' _ _ handler 0 false d (Good.newScope hg1 env data)
+    · unfold handlerStage
+      dsimp only
+      cases hcd : parts.catchDo with
+      | none => exact ⟨rfl, Quiet.refl _⟩
+      | some handler =>
+        cases parts.catchBind with
+        | none => exact ⟨rfl, Quiet.refl _⟩
+        | some bind =>
+          dsimp only
+          cases bindParams (.list [bind] none) [caughtValue e] with
+          | error be => exact ⟨rfl, Quiet.refl _⟩
+          | ok data =>
+            dsimp only
+            have hc : Cancelled (s1.newScope env data).1 := (Good.cancelled hg1 (Nat.le_of_lt hlt)).newScope env data
+            have hs : (s1.newScope env data).1.stepper = none := hg1.2
+            obtain ⟨x, xs, rfl⟩ : ∃ x xs, handler = x :: xs := by
+              cases handler with
+              | nil => exact absurd rfl (hne _ hcd)
+              | cons x xs => exact ⟨x, xs, rfl⟩
+            refine ⟨doForms_cancelled_notok hc hs F _ x xs d, ?_⟩
+            have := (doForms_cancelled_any hc hs F (s1.newScope env data).2 (x :: xs) 0 false d).same
+            exact ⟨this.1, this.2.1, this.2.2.2⟩
+
+theorem finally_facts (k' : List Fr) (parts : TryParts) (env d : Nat) (rh : R) (hg2 : Good n rh.2) :
+    ∃ ok3, Inv n k' rh.2.ticks ok3 (finallyStage F parts env d rh).2 (oFinally (obs F) k' parts env d rh) ∧
+      (okB (finallyStage F parts env d rh).1 = true → okB rh.1 = true) ∧
+      (parts.finallyDo = none →
+        (finallyStage F parts env d rh).2 = rh.2 ∧ oFinally (obs F) k' parts env d rh = none) := by
+  obtain ⟨r, s2⟩ := rh
+  have hs2 : s2.stepper = none := hg2.2
+  have hdefer : outing1Defer s2 = s2 := by simp only [outing1Defer, hs2]
+  have key : ∀ r : Res Val, r ≠ .oof →
+      (∃ ok3, Inv n k' s2.ticks ok3 (finallyStage F parts env d (r, s2)).2 (oFinally (obs F) k' parts env d (r, s2)) ∧
+      (okB (finallyStage F parts env d (r, s2)).1 = true → okB r = true) ∧
+      (parts.finallyDo = none →
+        (finallyStage F parts env d (r, s2)).2 = s2 ∧ oFinally (obs F) k' parts env d (r, s2) = none)) := by
+    intro r hr
+    have e1 : finallyStage F parts env d (r, s2) =
+        match parts.finallyDo with
+        | none => (r, outing1Defer s2)
+        | some fin =>
+          match doForms F s2 env fin 0 false d with
+          | (.oof, st) => (.oof, st)
+          | (_, st) => (r, st) := by
+      cases r <;> first | rfl | exact absurd rfl hr
+    have e2 : oFinally (obs F) k' parts env d (r, s2) =
+        match parts.finallyDo with
+        | none => none
+        | some fin => (obs F).doForms k' s2 env fin 0 false d := by
+      cases r <;> first | rfl | exact absurd rfl hr
+    rw [e1, e2]
+    cases parts.finallyDo with
+    | none => exact ⟨false, by rw [hdefer]; exact Inv.noPoll rfl, fun h => h, fun _ => ⟨hdefer, rfl⟩⟩
+    | some fin =>
+      dsimp only
+      have h1 := ih.doForms k' s2 env fin 0 false d hg2
+      generalize doForms F s2 env fin 0 false d = q at h1 ⊢
+      obtain ⟨r3, s3⟩ := q
+      refine ⟨okB r3, ?_, ?_, fun h => by cases h⟩
+      · cases r3 <;> exact h1
+      · cases r3 <;> first | exact fun h => h | (intro h; cases h)
+  cases r with
+  | oof => exact ⟨false, Inv.noPoll rfl, fun h => h, fun _ => ⟨rfl, rfl⟩⟩
+  | ok v => exact key _ (by simp)
+  | err e => exact key _ (by simp)
+
+theorem tryArm_inv (k st env parts d) (hg : Good n st) (hta : st.ticks ≤ n)
+    (hne : ∀ h, parts.catchDo = some h → h ≠ []) :
+    Inv n k st.ticks (okB (tryArm F st env parts d).1) (tryArm F st env parts d).2
+      (oTryArm (obs F) F k st env parts d) := by
+  unfold tryArm oTryArm
+  dsimp only
+  have h1 := ih.doForms (Fr.tr parts.finallyDo.isSome :: k) st env parts.body 0 false d hg
+  have g1 : Good n (doForms F st env parts.body 0 false d).2 := hg.frame ((frame F).doForms pairEta)
+  generalize doForms F st env parts.body 0 false d = rb at h1 g1 ⊢
+  obtain ⟨h2, hH, hB2⟩ := handler_facts ih (Fr.tr parts.finallyDo.isSome :: k) parts env d rb g1 hne
+  have g2 : Good n (handlerStage F parts env d rb).2 :=
+    g1.frame (handlerStage_rel frame_stepRel (frame F) (frame_stepRel.refl _))
+  generalize handlerStage F parts env d rb = rh at h2 hH hB2 g2 ⊢
+  obtain ⟨ok3, h3, hokf, hB3⟩ := finally_facts ih (Fr.tr parts.finallyDo.isSome :: k) parts env d rh g2
+  refine Inv.try3 hta h1 h2 h3 hH hokf (fun _ => hB2) (fun hf => hB3 ?_)
+  cases hfd : parts.finallyDo with
+  | none => rfl
+  | some fin => rw [hfd] at hf; cases hf
+
+theorem tryForm_inv (k st env lst operands ast d) (hg : Good n st) (hta : st.ticks ≤ n) :
+    Inv n k st.ticks (okB (tryForm F st env lst operands ast d).1) (tryForm F st env lst operands ast d).2
+      (oTryForm (obs F) F k st env lst operands d) := by
+  unfold tryForm oTryForm
+  split
+  · exact Inv.noPoll rfl
+  · cases hsp : splitTry lst with
+    | error msg => exact Inv.noPoll rfl
+    | ok parts => exact tryArm_inv ih k st env parts d hg hta (splitTry_handler_ne hsp)
+
+theorem dispatch_inv (k st env ast a0 operands pos d) (hg : Good n st) (hta : st.ticks ≤ n) :
+    Inv n k st.ticks (okB (dispatch F st env ast a0 operands pos d).1) (dispatch F st env ast a0 operands pos d).2
+      (oDispatch (obs F) F k st env a0 operands d) := by
+  unfold dispatch oDispatch
+  dsimp only
+  refine inv_ite (fun _ => ?_) (fun _ => ?_)
+  · exact defArm_inv ih k st env _ _ ast d hg
+  refine inv_ite (fun _ => ?_) (fun _ => ?_)
+  · exact letArm_inv ih k st env _ _ d hg
+  refine inv_ite (fun _ => ?_) (fun _ => ?_)
+  · exact Inv.noPoll rfl
+  refine inv_ite (fun _ => ?_) (fun _ => ?_)
+  · exact Inv.noPoll rfl
+  refine inv_ite (fun _ => ?_) (fun _ => ?_)
+  · exact cont_inv ih k st env _ d hg
+  refine inv_ite (fun _ => ?_) (fun _ => ?_)
+  · exact defmacroArm_inv ih k st env _ _ ast d hg
+  refine inv_ite (fun _ => ?_) (fun _ => ?_)
+  · exact (ih.macroexpand k st env _ d hg).inv
+  refine inv_ite (fun _ => ?_) (fun _ => ?_)
+  · exact tryForm_inv ih k st env _ operands ast d hg hta
+  refine inv_ite (fun _ => ?_) (fun _ => ?_)
+  · exact doArm_inv ih k st env _ d hg
+  refine inv_ite (fun _ => ?_) (fun _ => ?_)
+  · exact ifArm_inv ih k st env _ _ _ d hg
+  refine inv_ite (fun _ => ?_) (fun _ => ?_)
+  · unfold fnArm; split <;> exact Inv.noPoll rfl
+  · exact appArm_inv ih k st env _ ast d hg
+
+theorem afterExpand_inv (k st env ast d) (hg : Good n st) (hta : st.ticks ≤ n) :
+    Inv n k st.ticks (okB (afterExpand F st env ast d).1) (afterExpand F st env ast d).2
+      (oAfterExpand (obs F) F k st env ast d) := by
+  unfold afterExpand oAfterExpand
+  split
+  · exact Inv.noPoll rfl
+  · exact dispatch_inv ih k st env _ _ _ _ d hg hta
+  · rename_i h1 h2
+    split
+    · exact absurd rfl (h1 _)
+    · exact absurd rfl (h2 _ _ _)
+    · exact ih.evalAst k st env ast d hg
+
+/-! the same pieces entered after the deadline (only reachable behind a macro expansion that returned a value
+    after the cut) -/
+
+theorem tryArm_W (st env parts d) (hg : Good n st) (hlt : n < st.ticks)
+    (hne : ∀ h, parts.catchDo = some h → h ≠ []) :
+    W st.ticks (okB (tryArm F st env parts d).1) (tryArm F st env parts d).2 := by
+  unfold tryArm
+  have h1 := ih.doForms [] st env parts.body 0 false d hg
+  have g1 : Good n (doForms F st env parts.body 0 false d).2 := hg.frame ((frame F).doForms pairEta)
+  generalize doForms F st env parts.body 0 false d = rb at h1 g1 ⊢
+  obtain ⟨h2, hH, _⟩ := handler_facts ih [] parts env d rb g1 hne
+  have g2 : Good n (handlerStage F parts env d rb).2 :=
+    g1.frame (handlerStage_rel frame_stepRel (frame F) (frame_stepRel.refl _))
+  generalize handlerStage F parts env d rb = rh at h2 hH g2 ⊢
+  obtain ⟨ok3, h3, hokf, _⟩ := finally_facts ih [] parts env d rh g2
+  have l1 := h1.le
+  have l2 := h2.le
+  have l3 := h3.le
+  have p1 := h1.post hlt
+  have p2 := h2.post (by omega)
+  have p3 := h3.post (by omega)
+  have o3 := ite01_le ok3
+  refine ⟨by omega, ?_⟩
+  generalize okB (finallyStage F parts env d rh).1 = okf at hokf ⊢
+  have hokf' : (if okf = true then 1 else 0) ≤ (if okB rh.1 = true then 1 else 0) := by
+    cases okf <;> cases h : okB rh.1 <;> simp_all
+  cases h : okB rb.1 with
+  | true =>
+    obtain ⟨q1, q2⟩ := hH h
+    rw [h] at p1; rw [q2] at hokf'; rw [q1] at p3
+    simp at p1 hokf'; omega
+  | false =>
+    rw [h] at p1
+    simp at p1; omega
+
+theorem tryForm_W (st env lst operands ast d) (hg : Good n st) (hlt : n < st.ticks) :
+    W st.ticks (okB (tryForm F st env lst operands ast d).1) (tryForm F st env lst operands ast d).2 := by
+  unfold tryForm
+  split
+  · exact (Inv.noPoll (k := []) rfl).toW hlt
+  · cases hsp : splitTry lst with
+    | error msg => exact (Inv.noPoll (k := []) rfl).toW hlt
+    | ok parts => exact tryArm_W ih st env parts d hg hlt (splitTry_handler_ne hsp)
+
+omit ih in
+theorem w_ite {c : Prop} [Decidable c] {x y : R}
+    (hx : c → W ta (okB x.1) x.2) (hy : ¬c → W ta (okB y.1) y.2) :
+    W ta (okB (if c then x else y).1) (if c then x else y).2 := by
+  split
+  · exact hx ‹_›
+  · exact hy ‹_›
+
+theorem dispatch_W (st env ast a0 operands pos d) (hg : Good n st) (hlt : n < st.ticks) :
+    W st.ticks (okB (dispatch F st env ast a0 operands pos d).1) (dispatch F st env ast a0 operands pos d).2 := by
+  unfold dispatch
+  dsimp only
+  refine w_ite (fun _ => ?_) (fun _ => ?_)
+  · exact (defArm_inv ih [] st env _ _ ast d hg).toW hlt
+  refine w_ite (fun _ => ?_) (fun _ => ?_)
+  · exact (letArm_inv ih [] st env _ _ d hg).toW hlt
+  refine w_ite (fun _ => ?_) (fun _ => ?_)
+  · exact (Inv.noPoll (k := []) rfl).toW hlt
+  refine w_ite (fun _ => ?_) (fun _ => ?_)
+  · exact (Inv.noPoll (k := []) rfl).toW hlt
+  refine w_ite (fun _ => ?_) (fun _ => ?_)
+  · exact (cont_inv ih [] st env _ d hg).toW hlt
+  refine w_ite (fun _ => ?_) (fun _ => ?_)
+  · exact (defmacroArm_inv ih [] st env _ _ ast d hg).toW hlt
+  refine w_ite (fun _ => ?_) (fun _ => ?_)
+  · exact (ih.macroexpand [] st env _ d hg).inv.toW hlt
+  refine w_ite (fun _ => ?_) (fun _ => ?_)
+  · exact tryForm_W ih st env _ operands ast d hg hlt
+  refine w_ite (fun _ => ?_) (fun _ => ?_)
+  · exact (doArm_inv ih [] st env _ d hg).toW hlt
+  refine w_ite (fun _ => ?_) (fun _ => ?_)
+  · exact (ifArm_inv ih [] st env _ _ _ d hg).toW hlt
+  refine w_ite (fun _ => ?_) (fun _ => ?_)
+  · unfold fnArm; split <;> exact (Inv.noPoll (k := []) rfl).toW hlt
+  · exact (appArm_inv ih [] st env _ ast d hg).toW hlt
+
+theorem afterExpand_W (st env ast d) (hg : Good n st) (hlt : n < st.ticks) :
+    W st.ticks (okB (afterExpand F st env ast d).1) (afterExpand F st env ast d).2 := by
+  unfold afterExpand
+  split
+  · exact (Inv.noPoll (k := []) rfl).toW hlt
+  · exact dispatch_W ih st env _ _ _ _ d hg hlt
+  · exact (ih.evalAst [] st env ast d hg).toW hlt
+
+theorem liveBody_inv (k st env ast d) (hg : Good n st) (hta : st.ticks ≤ n) :
+    Inv n k st.ticks (okB (liveBody F st env ast d).1) (liveBody F st env ast d).2
+      (oLiveBody (obs F) F k st env ast d) := by
+  unfold liveBody oLiveBody
+  cases ast
+  case list xs pos =>
+    dsimp only
+    have h1 := ih.macroexpand k st env (.list xs pos) d hg
+    have g1 : Good n (macroexpand F st env (.list xs pos) d).2 := hg.frame ((frame F).macroexpand pairEta)
+    generalize macroexpand F st env (.list xs pos) d = p at h1 g1 ⊢
+    obtain ⟨r1, b1⟩ := p
+    cases r1 with
+    | ok v =>
+      simp only [andThen_ok]
+      exact InvM.seq_after h1 hta rfl (fun hb => afterExpand_inv ih k b1 env v d g1 hb)
+        (fun hb => afterExpand_W ih b1 env v d g1 hb)
+    | err e => simp only [andThen_err]; exact h1.inv
+    | oof => simp only [andThen_oof]; exact h1.inv
+  all_goals exact ih.evalAst k st env _ d hg
+
+theorem evalLoop_inv (k st env ast d) (hg : Good n st) :
+    Inv n k st.ticks (okB (evalLoop (F + 1) st env ast d).1) (evalLoop (F + 1) st env ast d).2
+      (oLoopBody (obs F) F k st env ast d) := by
+  rw [evalLoop_succ]; unfold loopBody oLoopBody
+  by_cases hc : n ≤ st.ticks
+  · rw [poll_cancelled (hg.cancelled hc)]
+    simp only [↓reduceIte]
+    refine ⟨Nat.le_succ _, fun h => (by cases h), fun _ => Nat.le_refl _, fun sc stk h => ?_⟩
+    simp only [Option.some.injEq, Prod.mk.injEq] at h
+    obtain ⟨rfl, rfl⟩ := h
+    refine ⟨by omega, Nat.lt_succ_self _, [], rfl, ?_, fun _ => ⟨rfl, rfl, rfl, rfl⟩⟩
+    show st.ticks + 1 + 0 ≤ _
+    omega
+  · have hl : Live st := by
+      intro m hm; rw [hg.1] at hm; cases hm; omega
+    rw [poll_of_live hl]
+    simp only [Bool.false_eq_true, ↓reduceIte]
+    exact Inv.tick (by omega) (liveBody_inv ih k (tick st) env ast d hg.tick (by simp only [tick_ticks]; omega))
+
+theorem allInv_succ : AllInv n (F + 1) where
+  eval k st env ast d hg := by rw [eval_noStepper hg.2]; exact ih.evalLoop k st env ast d hg
+  evalLoop := evalLoop_inv ih
+  evalAst := evalAst_inv ih
+  evalList := evalList_inv ih
+  evalMap := evalMap_inv ih
+  doForms := doForms_inv ih
+  letBinds := letBinds_inv ih
+  macroexpand := macroexpand_inv ih
+  apply := apply_inv ih
+  mapLoop := mapLoop_inv ih
+  updateIn := updateIn_inv ih
+  update1 := update1_inv ih
+  callBuiltin := callBuiltin_inv ih
+
 end step
+
+/-- the invariant holds for every function of the block, at every fuel -/
+theorem allInv (n : Nat) : ∀ F, AllInv n F
+  | 0 => allInv_zero
+  | F + 1 => allInv_succ (allInv n F)
+
+/-! ## §4 the closed form -/
+
+/-- `T`: the number of frames (`try` forms and macro expansions) live on the evaluation stack at the moment
+    of the first cancelled poll; 0 for a run that never saw a cancelled poll -/
+def liveFrames : Cut → Nat
+  | none => 0
+  | some (_, stk) => stk.length
+
+/-- the closed-form bound of one run from `st` to `b` with cut `c` -/
+def Bound (n : Nat) (st b : State) (c : Cut) : Prop :=
+  b.ticks ≤ max st.ticks n + 1 + 2 * liveFrames c
+
+/-- effects stop at the cut when no frame live at the cut is a `try` with a `finally` clause: the run returns
+    no value and the final trace / marks / atom store are those of the state in which the first cancelled
+    poll was performed (which happened at poll `max st.ticks n`) -/
+def EffectsStopAtCut (n : Nat) (st : State) (ok : Bool) (b : State) (c : Cut) : Prop :=
+  ∀ sc stk, c = some (sc, stk) → sc.ticks = max st.ticks n ∧
+    ((∀ x ∈ stk, x.swallows = false) →
+      ok = false ∧ b.trace = sc.trace ∧ b.marks = sc.marks ∧ b.atoms = sc.atoms)
+
+theorem Inv.bound {st b : State} {ok : Bool} {c : Cut} (h : Inv n [] st.ticks ok b c) : Bound n st b c := by
+  unfold Bound
+  cases c with
+  | none => have := h.none_le rfl; simp only [liveFrames]; omega
+  | some x =>
+    obtain ⟨sc, stk⟩ := x
+    obtain ⟨_, _, ext, e3, e5, _⟩ := h.cut sc stk rfl
+    simp only [List.append_nil] at e3
+    subst e3
+    have := ite01_le ok
+    simp only [liveFrames]; omega
+
+theorem Inv.effects {st b : State} {ok : Bool} {c : Cut} (h : Inv n [] st.ticks ok b c) :
+    EffectsStopAtCut n st ok b c := by
+  intro sc stk hc
+  obtain ⟨e1, _, ext, e3, _, e6⟩ := h.cut sc stk hc
+  simp only [List.append_nil] at e3
+  subst e3
+  exact ⟨e1, fun ha => e6 ha⟩
+
+/-- a run without a cut never saw a cancelled poll -/
+theorem Inv.no_cut {st b : State} {ok : Bool} {c : Cut} (h : Inv n [] st.ticks ok b c) (hc : c = none) :
+    b.ticks ≤ max st.ticks n := h.none_le hc
+
+/-- the closed form, for every function of the block -/
+theorem closed_form_all (n F : Nat) (st : State) (hc : st.cancelAt = some n) (hs : st.stepper = none) (env d : Nat) :
+    (∀ ast, Bound n st (eval F st env ast d).2 ((obs F).eval [] st env ast d)) ∧
+    (∀ ast, Bound n st (evalLoop F st env ast d).2 ((obs F).evalLoop [] st env ast d)) ∧
+    (∀ ast, Bound n st (evalAst F st env ast d).2 ((obs F).evalAst [] st env ast d)) ∧
+    (∀ xs, Bound n st (evalList F st env xs d).2 ((obs F).evalList [] st env xs d)) ∧
+    (∀ kvs, Bound n st (evalMap F st env kvs d).2 ((obs F).evalMap [] st env kvs d)) ∧
+    (∀ lst fr kl, Bound n st (doForms F st env lst fr kl d).2 ((obs F).doForms [] st env lst fr kl d)) ∧
+    (∀ bs a1, Bound n st (letBinds F st env bs a1 d).2 ((obs F).letBinds [] st env bs a1 d)) ∧
+    (∀ ast, Bound n st (macroexpand F st env ast d).2 ((obs F).macroexpand [] st env ast d)) ∧
+    (∀ f args, Bound n st (apply F st f args d).2 ((obs F).apply [] st f args d)) ∧
+    (∀ f xs, Bound n st (mapLoop F st f xs d).2 ((obs F).mapLoop [] st f xs d)) ∧
+    (∀ v path f, Bound n st (updateIn F st v path f d).2 ((obs F).updateIn [] st v path f d)) ∧
+    (∀ v i f, Bound n st (update1 F st v i f d).2 ((obs F).update1 [] st v i f d)) ∧
+    (∀ name args, Bound n st (callBuiltin F st name args d).2 ((obs F).callBuiltin [] st name args d)) :=
+  have A := allInv n F
+  have hg : Good n st := ⟨hc, hs⟩
+  ⟨fun _ => (A.eval [] st env _ d hg).bound, fun _ => (A.evalLoop [] st env _ d hg).bound,
+   fun _ => (A.evalAst [] st env _ d hg).bound, fun _ => (A.evalList [] st env _ d hg).bound,
+   fun _ => (A.evalMap [] st env _ d hg).bound, fun _ _ _ => (A.doForms [] st env _ _ _ d hg).bound,
+   fun _ _ => (A.letBinds [] st env _ _ d hg).bound, fun _ => (A.macroexpand [] st env _ d hg).inv.bound,
+   fun _ _ => (A.apply [] st _ _ d hg).bound, fun _ _ => (A.mapLoop [] st _ _ d hg).bound,
+   fun _ _ _ => (A.updateIn [] st _ _ _ d hg).bound, fun _ _ _ => (A.update1 [] st _ _ _ d hg).bound,
+   fun _ _ => (A.callBuiltin [] st _ _ d hg).bound⟩
+
+/-- effects stop at the cut, for every function of the block -/
+theorem effects_all (n F : Nat) (st : State) (hc : st.cancelAt = some n) (hs : st.stepper = none) (env d : Nat) :
+    (∀ ast, EffectsStopAtCut n st (okB (eval F st env ast d).1) (eval F st env ast d).2
+      ((obs F).eval [] st env ast d)) ∧
+    (∀ ast, EffectsStopAtCut n st (okB (evalLoop F st env ast d).1) (evalLoop F st env ast d).2
+      ((obs F).evalLoop [] st env ast d)) ∧
+    (∀ ast, EffectsStopAtCut n st (okB (evalAst F st env ast d).1) (evalAst F st env ast d).2
+      ((obs F).evalAst [] st env ast d)) ∧
+    (∀ xs, EffectsStopAtCut n st (okB (evalList F st env xs d).1) (evalList F st env xs d).2
+      ((obs F).evalList [] st env xs d)) ∧
+    (∀ kvs, EffectsStopAtCut n st (okB (evalMap F st env kvs d).1) (evalMap F st env kvs d).2
+      ((obs F).evalMap [] st env kvs d)) ∧
+    (∀ lst fr kl, EffectsStopAtCut n st (okB (doForms F st env lst fr kl d).1) (doForms F st env lst fr kl d).2
+      ((obs F).doForms [] st env lst fr kl d)) ∧
+    (∀ bs a1, EffectsStopAtCut n st (okB (letBinds F st env bs a1 d).1) (letBinds F st env bs a1 d).2
+      ((obs F).letBinds [] st env bs a1 d)) ∧
+    (∀ ast, EffectsStopAtCut n st (okB (macroexpand F st env ast d).1) (macroexpand F st env ast d).2
+      ((obs F).macroexpand [] st env ast d)) ∧
+    (∀ f args, EffectsStopAtCut n st (okB (apply F st f args d).1) (apply F st f args d).2
+      ((obs F).apply [] st f args d)) ∧
+    (∀ f xs, EffectsStopAtCut n st (okB (mapLoop F st f xs d).1) (mapLoop F st f xs d).2
+      ((obs F).mapLoop [] st f xs d)) ∧
+    (∀ v path f, EffectsStopAtCut n st (okB (updateIn F st v path f d).1) (updateIn F st v path f d).2
+      ((obs F).updateIn [] st v path f d)) ∧
+    (∀ v i f, EffectsStopAtCut n st (okB (update1 F st v i f d).1) (update1 F st v i f d).2
+      ((obs F).update1 [] st v i f d)) ∧
+    (∀ name args, EffectsStopAtCut n st (okB (callBuiltin F st name args d).1) (callBuiltin F st name args d).2
+      ((obs F).callBuiltin [] st name args d)) :=
+  have A := allInv n F
+  have hg : Good n st := ⟨hc, hs⟩
+  ⟨fun _ => (A.eval [] st env _ d hg).effects, fun _ => (A.evalLoop [] st env _ d hg).effects,
+   fun _ => (A.evalAst [] st env _ d hg).effects, fun _ => (A.evalList [] st env _ d hg).effects,
+   fun _ => (A.evalMap [] st env _ d hg).effects, fun _ _ _ => (A.doForms [] st env _ _ _ d hg).effects,
+   fun _ _ => (A.letBinds [] st env _ _ d hg).effects, fun _ => (A.macroexpand [] st env _ d hg).inv.effects,
+   fun _ _ => (A.apply [] st _ _ d hg).effects, fun _ _ => (A.mapLoop [] st _ _ d hg).effects,
+   fun _ _ _ => (A.updateIn [] st _ _ _ d hg).effects, fun _ _ _ => (A.update1 [] st _ _ _ d hg).effects,
+   fun _ _ => (A.callBuiltin [] st _ _ d hg).effects⟩
+
+/-- a run of `EVAL` whose cut is `none` never saw a cancelled poll -/
+theorem eval_no_cut (n F : Nat) (st : State) (hc : st.cancelAt = some n) (hs : st.stepper = none) (env : Nat)
+    (ast : Val) (d : Nat) (h : (obs F).eval [] st env ast d = none) :
+    (eval F st env ast d).2.ticks ≤ max st.ticks n :=
+  ((allInv n F).eval [] st env ast d ⟨hc, hs⟩).no_cut h
+
+/-! ### the timeout can be discarded: an effect after the cut -/
+
+/-- `(do (def f (fn () (f))) (trace! (try 1 (finally (f)))))`: the deferred `finally` run spins until the
+    deadline, its timeout error is discarded (`defer func() { _, _ = do(ctx, finallyDo, …) }()`), the try form
+    returns 1 and `trace!` — whose loop iteration polled long before — is applied to it -/
+def swallowProg : Val :=
+  .list [.sym "do" none,
+    .list [.sym "def" none, .sym "f" none, .list [.sym "fn" none, .list [] none, .list [.sym "f" none] none] none] none,
+    .list [.sym "trace!" none,
+      .list [.sym "try" none, .int 1, .list [.sym "finally" none, .list [.sym "f" none] none] none] none] none] none
+
+def swallowState : State := { initState with cancelAt := some 12 }
+
+/-- what can be decided about a cut: poll count and trace length of its state, and the frames -/
+def cutInfo (c : Cut) : Option (Nat × Nat × List Fr) := c.map fun x => (x.1.ticks, x.1.trace.length, x.2)
+
+theorem swallow_effect :
+    ∃ sc stk, (obs 60).eval [] swallowState 0 swallowProg 0 = some (sc, stk) ∧ sc.ticks = 12 ∧
+      stk = [.tr true] ∧ sc.trace = [] ∧ (eval 60 swallowState 0 swallowProg 0).2.trace.length = 1 ∧
+      (eval 60 swallowState 0 swallowProg 0).2.ticks = 13 ∧ okB (eval 60 swallowState 0 swallowProg 0).1 = true := by
+  have h : cutInfo ((obs 60).eval [] swallowState 0 swallowProg 0) = some (12, 0, [.tr true]) ∧
+      (eval 60 swallowState 0 swallowProg 0).2.trace.length = 1 ∧
+      (eval 60 swallowState 0 swallowProg 0).2.ticks = 13 ∧
+      okB (eval 60 swallowState 0 swallowProg 0).1 = true := by decide +kernel
+  obtain ⟨h1, h2, h3, h4⟩ := h
+  cases hc : (obs 60).eval [] swallowState 0 swallowProg 0 with
+  | none => rw [hc] at h1; cases h1
+  | some x =>
+    obtain ⟨sc, stk⟩ := x
+    rw [hc] at h1
+    simp only [cutInfo, Option.map_some, Option.some.injEq, Prod.mk.injEq] at h1
+    exact ⟨sc, stk, rfl, h1.1, h1.2.2, List.eq_nil_of_length_eq_zero h1.2.1, h2, h3, h4⟩
+
+/-- so "the final trace is the trace at the cut" does not hold for every run -/
+theorem swallow_refutes
+    (h : ∀ (n F : Nat) (st : State), st.cancelAt = some n → st.stepper = none →
+      ∀ (env : Nat) (ast : Val) (d : Nat) (sc : State) (stk : List Fr),
+        (obs F).eval [] st env ast d = some (sc, stk) → (eval F st env ast d).2.trace = sc.trace) : False := by
+  obtain ⟨sc, stk, hc, _, _, htr, hlen, _⟩ := swallow_effect
+  have := h 12 60 swallowState rfl rfl 0 swallowProg 0 sc stk hc
+  rw [this, htr] at hlen; cases hlen
 
 end LispModel.Proofs.EvalCancelBound
